@@ -29,7 +29,7 @@ ASSUMPTIONS = [
     "the first year of an [accounting_methods] schedule is <= the first year of the history (R10)",
 ]
 
-HIST = gen.GenCfg(min_steps=2, max_steps=10, max_exchanges=2, max_holders=2)
+HIST = gen.GenCfg(min_steps=2, max_steps=10, max_exchanges=2, max_holders=2, bulk_prob=0.08)
 FLAVOURS = ("mixed", "mixed", "income_only", "buy_only", "fully_sold", "transfer_heavy", "disposal_years")
 
 
@@ -88,6 +88,7 @@ def evaluate(case: Dict[str, Any]) -> Outcome:
     out = Outcome()
     out.classes.add(f"country_{case['country']}")
     out.classes.add(f"cell_{option_tuple(case)}")
+    out.classes |= cli_common.volume_classes(case)
     if case.get("from") or case.get("to") or case.get("method") not in (None, "fifo") or case.get("schedule") or case.get("lang"):
         out.nontrivial = True
     folder = cli_common.work_dir("c16")
